@@ -204,11 +204,55 @@ Fixpoint dec_fuel (fuel : nat) (n : N) (acc : bytes) : bytes :=
   end.
 Definition dec (n : N) : bytes := dec_fuel 40 n [].
 
-(* Lua 5.1 number -> string inside [..] is "%.14g": an integer-valued number below
-   10^14 prints as its plain decimal digits; larger ones switch to exponent
-   notation, which this model does not describe (None). *)
+(* Lua 5.1 numbers are IEEE doubles; an integer coming from Redis (HINCRBY reply,
+   string length) is first converted to the nearest double (ties to even) ... *)
+Definition round53 (n : N) : N :=
+  let b := N.size n in
+  if b <=? 53 then n
+  else
+    let sh := b - 53 in
+    let q := N.shiftr n sh in
+    let r := n - N.shiftl q sh in
+    let half := N.shiftl 1 (sh - 1) in
+    let q' := if half <? r then q + 1
+              else if (r =? half) && N.odd q then q + 1 else q in
+    N.shiftl q' sh.
+
+(* ... and number -> string inside [..] is sprintf("%.14g"): an integer-valued number
+   below 10^14 prints as its plain decimal digits; from 10^14 on, as a mantissa of 14
+   significant digits (correctly rounded, ties to even, trailing zeros and a then
+   useless '.' removed) followed by e+XX. *)
 Definition LUA_PLAIN : N := 10 ^ 14.
-Definition lua_num (n : N) : option bytes := if n <? LUA_PLAIN then Some (dec n) else None.
+
+Fixpoint drop_zeros (s : bytes) : bytes :=      (* leading '0's *)
+  match s with
+  | c :: s' => if c =? 48 then drop_zeros s' else s
+  | [] => []
+  end.
+Definition strip_trailing_zeros (s : bytes) : bytes := rev (drop_zeros (rev s)).
+
+Definition dec2 (e : nat) : bytes :=            (* exponent: at least two digits *)
+  if Nat.ltb e 10 then 48 :: dec (N.of_nat e) else dec (N.of_nat e).
+
+Definition lua_fmt (n0 : N) : bytes :=
+  let n := round53 n0 in
+  if n <? LUA_PLAIN then dec n
+  else
+    let d := length (dec n) in                      (* number of digits, >= 15 *)
+    let p := pow10 (d - 14) in
+    let q := n / p in
+    let r := n mod p in
+    let half := p / 2 in
+    let m := if (half <? r) || ((r =? half) && N.odd q) then q + 1 else q in
+    let '(m, e) := if m =? 10 ^ 14 then (10 ^ 13, d) else (m, (d - 1)%nat) in
+    match dec m with
+    | [] => []
+    | d0 :: ds =>
+        let frac := strip_trailing_zeros ds in
+        d0 :: (match frac with [] => [] | _ => 46 :: frac end) ++ [101; 43] ++ dec2 e
+    end.
+
+Definition lua_num (n : N) : option bytes := Some (lua_fmt n).
 
 Inductive var := Voffset | Vepoch | Vprev | Vpayload.
 Inductive tok := TLit (b : bytes) | TVar (v : var) | TLen (v : var).
